@@ -485,6 +485,12 @@ TEMPLATE = ('title line\n'
             'tail 5 6\n'
             'A1 7 8 9\n'
             'end\n')
+TEMPLATE_Z = ('head\n'
+              'Z 0 0 0\n'
+              '0 0 0 0\n'
+              '0 0 0 0\n'
+              '0 0 0 0\n'
+              'foot\n')
 TEMPLATE_C = ('title, line\n'
               'A1, 1, 2, 3\n'
               'A2, 10, 20, 30\n'
@@ -525,6 +531,12 @@ WRITE_CASES = [
      {(4, 2): 1.5, (4, 3): 2.5, (4, 4, '+'): 0.1, (4, 5, '+'): -4.0}),
     ('array2d', TEMPLATE, None, [('A1', 1)], [('transfer_2Darray', ([[1.5, 2.5, 3.5], [4.5, 5.5, 6.5]], 0, 1, 2, 4), {})],
      {(1, 2): 1.5, (1, 3): 2.5, (1, 4): 3.5, (2, 2): 4.5, (2, 3): 5.5, (2, 4): 6.5}),
+    ('array-wraps-identical-rows', TEMPLATE_Z, None, [('Z', 1)],
+     [('transfer_array', ([1.5, 2.5, 3.5, 4.5, 5.5, 6.5, 7.5, 8.5, 9.5, 10.5], 1, 2, 3), {'row_end': 3})],
+     {(2, 2): 1.5, (2, 3): 2.5, (2, 4): 3.5, (3, 1): 4.5, (3, 2): 5.5, (3, 3): 6.5, (3, 4): 7.5, (4, 1): 8.5, (4, 2): 9.5, (4, 3): 10.5}),
+    ('array2d-identical-rows', TEMPLATE_Z, None, [('Z', 1)],
+     [('transfer_2Darray', ([[1.5, 2.5], [3.5, 4.5], [5.5, 6.5]], 1, 3, 2, 3), {})],
+     {(2, 2): 1.5, (2, 3): 2.5, (3, 2): 3.5, (3, 3): 4.5, (4, 2): 5.5, (4, 3): 6.5}),
     ('array2d-offset', TEMPLATE, None, [('mid', 1)], [('transfer_2Darray', ([[1.5, 2.5], [3.5, 4.5], [5.5, 6.5]], 1, 3, 2, 3), {})],
      {(3, 2): 1.5, (3, 3): 2.5, (4, 2): 3.5, (4, 3): 4.5, (5, 2): 5.5, (5, 3): 6.5}),
 ]
@@ -591,7 +603,7 @@ def compare_grid(template, produced, delim, expected):
     return None
 
 
-@rule('C29.write', floor=14)
+@rule('C29.write', floor=16)
 def write(repo, out):
     """InputFileGenerator: mark_anchor + transfer_var / transfer_array / transfer_2Darray + generate put
     each value into the cell (anchor row + row, field) of the generated file and leave every other
@@ -626,7 +638,12 @@ DATAFILE = ('title line\n'
             'B 1.5 2 3 4\n'
             '5 6.25 7 8 9\n'
             '10 11 12.5 13 14\n'
-            'end\n')
+            'end\n'
+            'R 1.5 2.5 3.5\n'        # block of rows with identical text: a row must be told apart by its
+            '7 8.5 9 10\n'           # position, never by its content
+            '7 8.5 9 10\n'
+            '7 8.5 9 10\n'
+            'stop\n')
 DATAFILE_C = ('title, line\n'
               'A1, 1, 2.5, -3\n'
               'A2, 10, 20.5, abc\n'
@@ -678,6 +695,10 @@ READ_CASES = [
     ('array2d-box', DATAFILE, None, [('B', 1)], 'transfer_2Darray', (1, 2, 2, 4), {}, box(_G, 7, 8, 2, 4)),
     ('array2d-to-line-end', DATAFILE, None, [('B', 1)], 'transfer_2Darray', (1, 3, 2), {}, box(_G, 7, 8, 3, 5)),
     ('array2d-three-rows', DATAFILE, None, [('B', 1)], 'transfer_2Darray', (0, 2, 2, 5), {}, box(_G, 6, 8, 2, 5)),
+    ('array-wraps-identical-rows', DATAFILE, None, [('R', 1)], 'transfer_array', (1, 2, 3, 3), {}, wrap(_G, 11, 2, 13, 3)),
+    ('array-wraps-from-anchor-identical-rows', DATAFILE, None, [('R', 1)], 'transfer_array', (0, 3, 2, 2), {}, wrap(_G, 10, 3, 12, 2)),
+    ('array2d-identical-rows', DATAFILE, None, [('R', 1)], 'transfer_2Darray', (1, 2, 3, 3), {}, box(_G, 11, 13, 2, 3)),
+    ('array2d-identical-rows-to-line-end', DATAFILE, None, [('R', 1)], 'transfer_2Darray', (1, 2, 3), {}, box(_G, 11, 13, 2, 4)),
     # transfer_keyvar(key, field, occurrence, rowoffset) is documented as mark_anchor(key, occurrence) +
     # transfer_var(rowoffset, field + 1) (field 0 is the key itself)
     ('keyvar-first', DATAFILE, None, [], 'transfer_keyvar', ('A2', 2), {}, _G[3][2]),
@@ -711,7 +732,7 @@ def same_struct(got, want):
     return got == want
 
 
-@rule('C29.read', floor=26)
+@rule('C29.read', floor=30)
 def read(repo, out):
     """FileParser: set_file + mark_anchor + transfer_var / transfer_array / transfer_2Darray /
     transfer_keyvar return the cells at (anchor row + row, field), 1-based inclusive field ranges,
@@ -965,6 +986,21 @@ selftest(
     Mutant('anchor-reader-flag-never-set', FW, '                        self._current_row += count\n                        self._anchored = True\n',
            '                        self._current_row += count\n', 'C29.anchor', nth=1),
     Mutant('anchor-writer-always-splits', FW, '                if count == 0 and self._anchored:', '                if self._anchored:', 'C29.anchor', nth=0),
+    # ---- round-2 seeds: rows/lines must be told apart by position, counters belong to the caller's protocol
+    Mutant('seed2-set-array-resets-element-counter', FW,
+           '        self._end_location = end_location\n        self._current_location = 0\n',
+           '        self._end_location = end_location\n        self._current_location = 0\n        self._counter = 0\n', 'C29.write',
+           also=[(FW, '            self._data[j] = newline\n\n            sub._current_location = 0\n            sub._counter = 0\n            i += 1',
+                  '            self._data[j] = newline\n            i += 1')]),
+    Mutant('seed2-2d-field-start-reset-after-first-row', FW, '            sub.set_array(value[i, :], field_start, field_end)\n',
+           '            sub.set_array(value[i, :], field_start, field_end)\n            field_start = 0\n', 'C29.write'),
+    Mutant('seed2-reader-last-line-by-text', FW, '        for i, line in enumerate(lines):\n            if self._delimiter == "columns":\n                line = line[(fieldstart - 1):fieldend]',
+           '        for line in lines:\n            if self._delimiter == "columns":\n                line = line[(fieldstart - 1):fieldend]', 'C29.read',
+           also=[(FW, '                if i == j2 - j1 - 1:', '                if line == lines[-1]:')]),
+    Mutant('reader-2d-row-slot-by-text', FW, '                    data[i + 1, :] = np.array(parsed[(fieldstart - 1):])\n',
+           '                    data[lines.index(line), :] = np.array(parsed[(fieldstart - 1):])\n', 'C29.read'),
+    Mutant('writer-array-last-row-by-text', FW, '            if row == row_end:\n                f_end = field_end',
+           '            if line == self._data[self._current_row + row_end]:\n                f_end = field_end', 'C29.write'),
     # ---- behaviour-preserving rewrites (must stay silent)
     Twin('twin-getformat-early-return', FW, _GF,
          '    if not np.isfinite(val):\n        return "%.16g"\n    if val == int(val):\n        return "%.1f"\n    return "%.16g"\n'),
@@ -990,11 +1026,18 @@ selftest(
          '                    instance += -1\n                    if instance <= occurrence:\n                        self._current_row = index\n', nth=1),
     Twin('twin-writer-split-side', FW, _FWD, _FWD.replace('[-1]', '[0]'), nth=0),
     Twin('twin-generate-single-write', FW, '                f.writelines(self._data)\n', "                f.write(''.join(self._data))\n"),
+    Twin('twin-reader-last-line-by-length', FW, '                if i == j2 - j1 - 1:', '                if i == len(lines) - 1:'),
+    Twin('twin-writer-2d-row-index-from-loop', FW, 'sub.set_array(value[i, :], field_start, field_end)',
+         'sub.set_array(value[row - row_start, :], field_start, field_end)'),
+    Twin('twin-writer-2d-fresh-helper-per-row', FW, '            sub.set_array(value[i, :], field_start, field_end)\n',
+         '            sub = _SubHelper()\n            sub.set_array(value[i, :], field_start, field_end)\n'),
     Twin('twin-reader-array-loop-temporaries', FW, _R_ARR,
          '                last = (i + 1 == j2 - j1)\n                lo = fieldstart - 1\n'
          '                picked = parsed[lo:fieldend] if last else parsed[lo:]\n'
          '                data = np.append(data, np.array(picked))\n\n                fieldstart = 1\n'),
     # the two repairs of today's findings: must not raise anything new (and silence the finding, checked by hand)
+    Mutant('seed1-3-mixed-exp-exponent-sign-dropped', FW, 'mixed_exp = _ToFloat(Combine(Optional(sign) + digits + ee + Optional(sign) + digits))',
+           'mixed_exp = _ToFloat(Combine(Optional(sign) + digits + ee + digits))', 'C29.tokens'),
     Mutant('mixed-exp-sign-dropped-F', FW, 'mixed_exp = _ToFloat(Combine(Optional(sign) + digits + ee + Optional(sign) + digits))',
            'mixed_exp = _ToFloat(Combine(digits + ee + Optional(sign) + digits))', 'C29.tokens'),
     Twin('twin-mixed-exp-sign-literal', FW, 'mixed_exp = _ToFloat(Combine(Optional(sign) + digits + ee + Optional(sign) + digits))',
